@@ -69,6 +69,7 @@ def run(ctx):
         ctx.guard(c08.keep_only, ctx, lambda: c10.usage_fallback(ctx, cfg, ctx.look(fs.one(r'^info::OptionParser::<T>::run_subparser$')), 'U.usage-fallback'), lambda o: True, 'U.usage-fallback')
         ctx.guard(c08.keep_only, ctx, lambda: c18.who(ctx, cfg, fs), lambda o: o.key.startswith(('params::', '<params::')) and 'std::env::' in o.key, 'E.env-absence')
         ctx.guard(k5, ctx, cfg, fs)
+        ctx.guard(loop_conditions, ctx, cfg, fs)
         ctx.guard(len_threaded, ctx, cfg, fs)
         ctx.guard(k6, ctx, cfg, fs)
 
@@ -421,6 +422,46 @@ def k5(ctx, cfg, fs):
                     errs_ok = False
             ctx.ob('K5.loops', '%s:failure-is-returned' % short(b.path), errs_ok and bool(fl.err_edges),
                    '%s: no Ok return is reachable from the Err edge of parse_option: %s' % (short(b.path), errs_ok), where=c.where(), cfg=cfg)
+
+def loop_conditions(ctx, cfg, fs, rule='K5.loops'):
+    """whether a repetition (many / some / count / last / collect) goes round again depends ONLY on what the inner
+    parser just returned and on whether the number of remaining items changed - never on where the consumed item sat or
+    on what lies next to it (an item to its right may have been taken by a parser declared earlier, which says nothing
+    about further occurrences)."""
+    OKCALL = [r'^structs::parse_option$', r'State::len$', r'Try>::branch$', r'Option::<.*>::is_(some|none)$', r'Result::<.*>::is_(ok|err)$', r'Vec::<.*>::(len|is_empty)$']
+    for b in sorted(fs.bodies.values(), key=lambda x: x.path):
+        if b.kind == 'closure':
+            continue
+        for c in b.calls():
+            if not c.is_(r'^structs::parse_option$') or c.target is None or c.bb not in reachable_edges(b, c.target):
+                continue
+            ctx.look(b)
+            cyc = {x for x in reachable_edges(b, c.target) if b.reaches(x, [c.bb])} | {c.bb}
+            bad = []
+            def judge(roots, depth=0):
+                for r in roots:
+                    if r.kind == 'const':
+                        continue
+                    if r.kind == 'call' and r.call.is_(*OKCALL):
+                        continue
+                    if r.kind == 'param' and r.what == 'self':
+                        continue
+                    if r.kind in ('bin', 'un') and depth < 4:
+                        for key in ('a', 'b', 'op_'):
+                            o = r.extra.get(key) if isinstance(r.extra, dict) else None
+                            if isinstance(o, list):
+                                judge(provenance(b, o, r.site[0], r.site[1], through=None), depth + 1)
+                        continue
+                    if r.kind == 'discr':
+                        judge(provenance(b, r.extra['place'], r.site[0], r.site[1], through=None), depth + 1) if depth < 4 else None
+                        continue
+                    bad.append('%s:%s%s' % (r.kind, r.what if r.kind != 'call' else short(r.call.name), ('.' + '.'.join(r.path)) if r.path else ''))
+            for sw in switches(b):
+                if sw.b not in cyc:
+                    continue
+                judge(sw.roots)
+            ctx.ob(rule, '%s:goes-on-by-outcome-only' % short(b.path), not bad,
+                   '%s: the tests inside the repetition look only at the result of parse_option and at State::len(): %s' % (short(b.path), sorted(set(bad)) or 'ok'), where=c.where(), cfg=cfg)
 
 def in_cycle(b, x):
     return any(x in reachable_edges(b, s_) for s_ in b.succ(x))
